@@ -7,6 +7,7 @@ import (
 	"os"
 	"path/filepath"
 	"sort"
+	"strconv"
 	"strings"
 )
 
@@ -20,7 +21,17 @@ type Clause struct {
 	Auto  bool // produced by the inference pass (file verif_contracts_auto.go)
 }
 
+type BodyCall struct {
+	Fn   string
+	Cond *CExpr // body_calls: the call is reached in an iteration iff Cond
+	Req  *CExpr // at_call: must hold at each such call site (callee parameter names are bound)
+	Text string
+	Props []string
+}
+
 type LoopSpec struct {
+	BodyCalls  []*BodyCall
+	AtCalls    []*BodyCall
 	Key        string // header text
 	Ordinal    int    // 0 = any / first
 	Invariants []*Clause
@@ -28,7 +39,19 @@ type LoopSpec struct {
 	Used       bool
 }
 
+type Effect struct {
+	Ghost string
+	Key   *CExpr
+	Val   *CExpr
+	Cond  *CExpr
+	Text  string
+}
+
 type Contract struct {
+	BodyCalls   []*BodyCall // function level: the call is reached on a path to a return iff Cond
+	AtCalls     []*BodyCall // function level: holds at every call of Fn in the body
+	Effects     []*Effect
+	FreshWrites []string // ghost sets this function only writes at objects allocated during the call
 	Fn        string
 	Props     []string
 	Requires  []*Clause
@@ -52,9 +75,10 @@ type SpecFunc struct {
 }
 
 type TypeInv struct {
-	Type string
-	Expr *CExpr
-	Text string
+	Type    string
+	Expr    *CExpr
+	Text    string
+	Assumed bool // library type: assumed, never checked
 }
 
 type Contracts struct {
@@ -64,10 +88,14 @@ type Contracts struct {
 	NonNilBoxed map[string]bool // pointer types never boxed as typed nil in interfaces
 	Specs       map[string]*SpecFunc
 	TypeInvs    []*TypeInv
-	FoldedKeys  map[string]bool // "T.f" or global name
+	FoldedKeys  map[string]bool // map type names whose keys are always lower-cased
+	FoldedField map[string]bool // "T.f" string fields that always hold lower-cased text
+	FoldedElems map[string]bool // "T.f" []string fields whose elements are all lower-cased
 	NlfreeField map[string]bool
 	Ghosts      map[string]string // name -> type
 	Axioms      []*Clause
+	AutoEnsures [][2]string // (function regexp, clause text): candidates for the inference pass
+	AutoInvs    [][2]string // (function regexp, invariant text): candidate invariants for every loop of the functions
 	Files       []string
 	Errors      []string
 }
@@ -91,6 +119,8 @@ func loadContracts(dir string) (*Contracts, error) {
 		NonNilBoxed: map[string]bool{},
 		Specs:       map[string]*SpecFunc{},
 		FoldedKeys:  map[string]bool{},
+		FoldedField: map[string]bool{},
+		FoldedElems: map[string]bool{},
 		NlfreeField: map[string]bool{},
 		Ghosts:      map[string]string{},
 	}
@@ -227,6 +257,19 @@ func (cs *Contracts) parseFile(file, src string) {
 			}
 			cs.TypeInvs = append(cs.TypeInvs, &TypeInv{Type: strings.TrimSpace(rest[:j]), Expr: e, Text: rest})
 			cur = nil
+		case "assume_inv":
+			j := strings.Index(rest, ":")
+			if j < 0 {
+				cs.errf(file, ln, "assume_inv needs 'Type: expr'")
+				continue
+			}
+			e, err := parseCExpr(strings.TrimSpace(rest[j+1:]))
+			if err != nil {
+				cs.errf(file, ln, "%v", err)
+				continue
+			}
+			cs.TypeInvs = append(cs.TypeInvs, &TypeInv{Type: strings.TrimSpace(rest[:j]), Expr: e, Text: rest, Assumed: true})
+			cur = nil
 		case "loop":
 			if cur == nil {
 				cs.errf(file, ln, "loop outside func block")
@@ -238,11 +281,96 @@ func (cs *Contracts) parseFile(file, src string) {
 				fmt.Sscanf(r[j+1:], "%d", &ord)
 				r = strings.TrimSpace(r[:j])
 			}
-			r = strings.Trim(r, "\"")
-			curLoop = &LoopSpec{Key: r, Ordinal: ord}
-			cur.Loops = append(cur.Loops, curLoop)
+			if uq, err := strconv.Unquote(r); err == nil {
+				r = uq
+			} else {
+				r = strings.Trim(r, "\"")
+			}
+			curLoop = nil
+			for _, ls := range cur.Loops {
+				if ls.Key == r && (ls.Ordinal == ord || (ls.Ordinal <= 1 && ord <= 1)) {
+					curLoop = ls
+				}
+			}
+			if curLoop == nil {
+				curLoop = &LoopSpec{Key: r, Ordinal: ord}
+				cur.Loops = append(cur.Loops, curLoop)
+			}
+		case "body_calls", "at_call":
+			// body_calls F iff COND      at_call F: EXPR
+			if curLoop == nil && cur == nil {
+				cs.errf(file, ln, "%s outside func block", kw)
+				continue
+			}
+			props, txt := splitProps(rest)
+			sep := " iff "
+			if kw == "at_call" {
+				sep = ": "
+			}
+			j := strings.Index(txt, sep)
+			if j < 0 {
+				cs.errf(file, ln, "%s needs %q", kw, sep)
+				continue
+			}
+			ex, err := parseCExpr(strings.TrimSpace(txt[j+len(sep):]))
+			if err != nil {
+				cs.errf(file, ln, "%v", err)
+				continue
+			}
+			bc := &BodyCall{Fn: strings.TrimSpace(txt[:j]), Text: txt, Props: props}
+			switch {
+			case kw == "body_calls" && curLoop != nil:
+				bc.Cond = ex
+				curLoop.BodyCalls = append(curLoop.BodyCalls, bc)
+			case kw == "body_calls":
+				bc.Cond = ex
+				cur.BodyCalls = append(cur.BodyCalls, bc)
+			case curLoop != nil:
+				bc.Req = ex
+				curLoop.AtCalls = append(curLoop.AtCalls, bc)
+			default:
+				bc.Req = ex
+				cur.AtCalls = append(cur.AtCalls, bc)
+			}
 		case "endloop":
 			curLoop = nil
+		case "effect":
+			// effect g[key] = val [if cond]
+			if cur == nil {
+				cs.errf(file, ln, "effect outside func block")
+				continue
+			}
+			txt := rest
+			var cond *CExpr
+			if j := strings.Index(txt, " if "); j > 0 {
+				c, err := parseCExpr(strings.TrimSpace(txt[j+4:]))
+				if err != nil {
+					cs.errf(file, ln, "%v", err)
+					continue
+				}
+				cond = c
+				txt = txt[:j]
+			}
+			lb, rb := strings.Index(txt, "["), strings.Index(txt, "] =")
+			if lb < 0 || rb < lb {
+				cs.errf(file, ln, "effect needs 'g[key] = val'")
+				continue
+			}
+			k, err := parseCExpr(strings.TrimSpace(txt[lb+1 : rb]))
+			if err != nil {
+				cs.errf(file, ln, "%v", err)
+				continue
+			}
+			v, err := parseCExpr(strings.TrimSpace(txt[rb+3:]))
+			if err != nil {
+				cs.errf(file, ln, "%v", err)
+				continue
+			}
+			cur.Effects = append(cur.Effects, &Effect{Ghost: strings.TrimSpace(txt[:lb]), Key: k, Val: v, Cond: cond, Text: rest})
+		case "fresh_writes":
+			if cur != nil {
+				cur.FreshWrites = append(cur.FreshWrites, strings.Fields(rest)...)
+			}
 		case "trusted":
 			if cur != nil {
 				cur.Trusted = rest
@@ -277,8 +405,16 @@ func (cs *Contracts) parseFile(file, src string) {
 			cs.NonNilBoxed[strings.TrimSpace(rest)] = true
 			cur = nil
 		case "folded_keys":
+			cs.FoldedKeys[strings.TrimSpace(rest)] = true
+			cur = nil
+		case "folded_elems":
 			for _, f := range strings.Fields(rest) {
-				cs.FoldedKeys[f] = true
+				cs.FoldedElems[f] = true
+			}
+			cur = nil
+		case "folded":
+			for _, f := range strings.Fields(rest) {
+				cs.FoldedField[f] = true
 			}
 			cur = nil
 		case "nlfree":
@@ -318,6 +454,22 @@ func (cs *Contracts) parseFile(file, src string) {
 				continue
 			}
 			cs.Ghosts[strings.TrimSpace(rest[:j])] = strings.TrimSpace(rest[j+1:])
+			cur = nil
+		case "auto_ensures", "auto_invariant":
+			j := strings.Index(rest, ": ")
+			if j < 0 {
+				cs.errf(file, ln, "%s needs 'regexp: expr'", kw)
+				continue
+			}
+			if _, err := parseCExpr(strings.TrimSpace(rest[j+2:])); err != nil {
+				cs.errf(file, ln, "%v", err)
+				continue
+			}
+			if kw == "auto_ensures" {
+				cs.AutoEnsures = append(cs.AutoEnsures, [2]string{strings.TrimSpace(rest[:j]), strings.TrimSpace(rest[j+2:])})
+			} else {
+				cs.AutoInvs = append(cs.AutoInvs, [2]string{strings.TrimSpace(rest[:j]), strings.TrimSpace(rest[j+2:])})
+			}
 			cur = nil
 		case "axiom":
 			c := mkClause("axiom")
